@@ -3,8 +3,10 @@ package props
 import (
 	"fmt"
 	"go/ast"
+	"go/constant"
 	"go/token"
 	"go/types"
+	"regexp"
 	"strings"
 
 	"octoverif/core"
@@ -137,6 +139,14 @@ func checkInstallStaging(c *core.Ctx) {
 			if !derivesFrom(fn, call.Args[0], staging, 0) {
 				bad = fmt.Sprintf("%s: %s(%s) writes outside the staging directory", p.Pos(call.Pos()), name, core.ExprStr(call.Args[0]))
 			}
+		case len(paramCreates(p, fn, call)) > 0:
+			// a helper that creates the file named by one of its parameters: the file is the argument handed to it
+			for _, k := range paramCreates(p, fn, call) {
+				evs = append(evs, ev{"create", call.Pos(), call.Args[k]})
+				if !derivesFrom(fn, call.Args[k], staging, 0) {
+					bad = fmt.Sprintf("%s: %s creates the file %s outside the staging directory", p.Pos(call.Pos()), name, core.ExprStr(call.Args[k]))
+				}
+			}
 		case strings.HasSuffix(name, ".Unarchive") && len(call.Args) == 2:
 			evs = append(evs, ev{"unarchive", call.Pos(), call.Args[1]})
 			if !derivesFrom(fn, call.Args[1], staging, 0) {
@@ -228,6 +238,53 @@ func deferParent(body *ast.BlockStmt, call *ast.CallExpr) (*ast.DeferStmt, bool)
 	return out, out != nil
 }
 
+// paramIndex: the position of the parameter of fr that e names, or -1.
+func paramIndex(fr *core.FuncRef, info *types.Info, e ast.Expr) int {
+	id, ok := core.Unparen(e).(*ast.Ident)
+	if !ok || fr.Decl.Type.Params == nil {
+		return -1
+	}
+	obj := info.Uses[id]
+	k := 0
+	for _, fl := range fr.Decl.Type.Params.List {
+		for _, nm := range fl.Names {
+			if info.Defs[nm] == obj && obj != nil {
+				return k
+			}
+			k++
+		}
+	}
+	return -1
+}
+
+// paramCreates: for a call of an unexported helper of fn's package, the argument positions naming files the helper
+// creates (os.Create / os.OpenFile / os.WriteFile on the parameter itself).
+func paramCreates(p *core.Program, fn *core.FuncRef, call *ast.CallExpr) []int {
+	f, ok := core.Callee(fn.Info(), call).(*types.Func)
+	if !ok || f.Pkg() == nil || f.Pkg().Path() != fn.Pkg.PkgPath || f.Exported() {
+		return nil
+	}
+	helperInline(p, "", nil)
+	fr := helperDecls[p][f]
+	if fr == nil || fr.Decl.Body == nil {
+		return nil
+	}
+	var out []int
+	info := fr.Info()
+	ast.Inspect(fr.Decl.Body, func(n ast.Node) bool {
+		if c2, ok := n.(*ast.CallExpr); ok && len(c2.Args) > 0 {
+			switch p.CalleeName(info, c2) {
+			case "os.Create", "os.OpenFile", "os.WriteFile":
+				if k := paramIndex(fr, info, c2.Args[0]); k >= 0 && k < len(call.Args) {
+					out = append(out, k)
+				}
+			}
+		}
+		return true
+	})
+	return out
+}
+
 func checkNoInPlaceWrites(c *core.Ctx) {
 	p := c.Prog
 	n, atomic := 0, 0
@@ -249,6 +306,19 @@ func checkNoInPlaceWrites(c *core.Ctx) {
 				n++
 				if name == "plugins/manager.(*PluginManager).Install" {
 					return true // decided by STAGE
+				}
+				// a helper creating the file one of its parameters names, called by Install only: STAGE judges the argument
+				if k := paramIndex(fr, info, call.Args[0]); k >= 0 && fr.Obj != nil && !fr.Obj.Exported() {
+					callers := staticCallers(p, fr)
+					onlyInstall := len(callers) > 0
+					for _, cs := range callers {
+						if p.FName(cs.fn) != "plugins/manager.(*PluginManager).Install" {
+							onlyInstall = false
+						}
+					}
+					if onlyInstall {
+						return true
+					}
 				}
 				c.Bad("ATOMW", name+"/"+callee+"("+core.ExprStr(call.Args[0])+")", call.Pos(), 1, "a file is created in place outside the staging directory")
 			case "config.WriteFileAtomic":
@@ -397,22 +467,57 @@ func checkLeftoverSkips(c *core.Ctx) {
 		return
 	}
 	c.SawFunc("plugins/manager.(*PluginManager).ListInstalledPlugins")
-	pattern := ""
-	ast.Inspect(inst.Decl.Body, func(n ast.Node) bool {
-		if call, ok := n.(*ast.CallExpr); ok && p.CalleeName(inst.Info(), call) == "os.MkdirTemp" && len(call.Args) == 2 {
-			pattern = core.ExprStr(call.Args[1])
+	// the staging prefix is compared by value (a literal or a constant, whatever its name); the directories by what
+	// they are defined as (a local naming getPluginDir() is getPluginDir())
+	constStr := func(info *types.Info, e ast.Expr) (string, bool) {
+		if tv, ok := info.Types[e]; ok && tv.Value != nil && tv.Value.Kind() == constant.String {
+			return constant.StringVal(tv.Value), true
 		}
-		return true
-	})
-	skipStaging := false
-	// the directory the staging directory is created in must be the one whose listing skips the prefix
+		return "", false
+	}
+	resolved := func(fn *core.FuncRef, e ast.Expr) string {
+		for i := 0; i < 4; i++ {
+			id, ok := core.Unparen(e).(*ast.Ident)
+			if !ok {
+				break
+			}
+			v, ok := fn.Info().Uses[id].(*types.Var)
+			if !ok {
+				break
+			}
+			def := singleDef(fn.Info(), fn.Decl.Body, v)
+			if def == nil {
+				break
+			}
+			e = def
+		}
+		return core.ExprStr(e)
+	}
+	pattern, havePattern := "", false
 	stagingParent, skippedDir := "", ""
 	ast.Inspect(inst.Decl.Body, func(n ast.Node) bool {
 		if call, ok := n.(*ast.CallExpr); ok && p.CalleeName(inst.Info(), call) == "os.MkdirTemp" && len(call.Args) == 2 {
-			stagingParent = core.ExprStr(call.Args[0])
+			if v, ok := constStr(inst.Info(), call.Args[1]); ok {
+				// the random part replaces the last "*" (or is appended)
+				if i := strings.LastIndex(v, "*"); i >= 0 {
+					v = v[:i]
+				}
+				pattern, havePattern = v, true
+			}
+			stagingParent = resolved(inst, call.Args[0])
 		}
 		return true
 	})
+	isStagingTest := func(e ast.Expr) bool {
+		call, ok := core.Unparen(e).(*ast.CallExpr)
+		if !ok || p.CalleeName(list.Info(), call) != "strings.HasPrefix" || len(call.Args) != 2 || !havePattern || pattern == "" {
+			return false
+		}
+		v, ok := constStr(list.Info(), call.Args[1])
+		return ok && v == pattern
+	}
+	skipStaging := false
+	// the directory the staging directory is created in must be the one whose listing skips the prefix
 	ast.Inspect(list.Decl.Body, func(n ast.Node) bool {
 		rs, ok := n.(*ast.RangeStmt)
 		if !ok {
@@ -420,10 +525,8 @@ func checkLeftoverSkips(c *core.Ctx) {
 		}
 		direct := false
 		for _, st := range rs.Body.List {
-			if is, ok := st.(*ast.IfStmt); ok {
-				if call, ok := is.Cond.(*ast.CallExpr); ok && p.CalleeName(list.Info(), call) == "strings.HasPrefix" && len(call.Args) == 2 && core.ExprStr(call.Args[1]) == pattern {
-					direct = true
-				}
+			if is, ok := st.(*ast.IfStmt); ok && isStagingTest(is.Cond) {
+				direct = true
 			}
 		}
 		if !direct {
@@ -433,7 +536,7 @@ func checkLeftoverSkips(c *core.Ctx) {
 		ast.Inspect(list.Decl.Body, func(m ast.Node) bool {
 			if as, ok := m.(*ast.AssignStmt); ok && len(as.Lhs) == 2 && len(as.Rhs) == 1 && core.ExprStr(as.Lhs[0]) == ranged {
 				if call, ok := as.Rhs[0].(*ast.CallExpr); ok && p.CalleeName(list.Info(), call) == "os.ReadDir" {
-					skippedDir = core.ExprStr(call.Args[0])
+					skippedDir = resolved(list, call.Args[0])
 				}
 			}
 			return true
@@ -447,7 +550,7 @@ func checkLeftoverSkips(c *core.Ctx) {
 		if !ok {
 			return true
 		}
-		if call, ok := is.Cond.(*ast.CallExpr); ok && p.CalleeName(list.Info(), call) == "strings.HasPrefix" && len(call.Args) == 2 && core.ExprStr(call.Args[1]) == pattern && pattern != "" {
+		if isStagingTest(is.Cond) {
 			for _, s := range is.Body.List {
 				if b, ok := s.(*ast.BranchStmt); ok && b.Tok == token.CONTINUE {
 					skipStaging = true
@@ -456,25 +559,11 @@ func checkLeftoverSkips(c *core.Ctx) {
 		}
 		return true
 	})
-	c.Decide(skipStaging, "SKIP", "plugins/manager.(*PluginManager).ListInstalledPlugins/staging", list.Decl.Pos(), 1, "entries with the staging prefix ("+pattern+") are skipped",
-		fmt.Sprintf("a staging directory left by an interrupted install (os.MkdirTemp pattern %s) must be skipped when listing installed plugins, or it is read as a repository and the start fails", pattern))
-	// plugins without versions are not listed
-	versionGuard := false
-	ast.Inspect(list.Decl.Body, func(n ast.Node) bool {
-		if is, ok := n.(*ast.IfStmt); ok {
-			cs := core.ExprStr(is.Cond)
-			if strings.HasPrefix(cs, "len(") && strings.Contains(cs, ".Versions) == 0") {
-				for _, s := range is.Body.List {
-					if b, ok := s.(*ast.BranchStmt); ok && b.Tok == token.CONTINUE {
-						versionGuard = true
-					}
-				}
-			}
-		}
-		return true
-	})
-	c.Decide(versionGuard, "SKIP", "plugins/manager.(*PluginManager).ListInstalledPlugins/no versions", list.Decl.Pos(), 1, "a plugin directory without versions is not listed",
-		"a plugin directory that holds no version (install interrupted before the rename) must not be listed: callers index Versions[0]")
+	c.Decide(skipStaging, "SKIP", "plugins/manager.(*PluginManager).ListInstalledPlugins/staging", list.Decl.Pos(), 1, fmt.Sprintf("entries with the staging prefix (%q) are skipped", pattern),
+		fmt.Sprintf("a staging directory left by an interrupted install (os.MkdirTemp pattern %q) must be skipped when listing installed plugins, or it is read as a repository and the start fails", pattern))
+	// plugins without versions are not listed: the body of the loop that appends to the result list is interpreted
+	// with every length-against-zero test answered for an empty and for a non-empty version list
+	checkNoVersionsSkipped(c, list)
 	// repository entries: dot files skipped
 	rp := p.Func("plugins/repository", "getAdditionalPluginRepositoryURLs")
 	if rp == nil {
@@ -508,4 +597,120 @@ func checkLeftoverSkips(c *core.Ctx) {
 	}
 	c.Decide(skipDot && dotTemp, "SKIP", "plugins/repository.getAdditionalPluginRepositoryURLs/temp files", rp.Decl.Pos(), 2, "temporary files (dot-prefixed) are not read as repository entries",
 		fmt.Sprintf("every file in the repositories directory is decoded at start: the temporary files of interrupted writes must be recognisable (dot prefix: %v) and skipped (%v)", dotTemp, skipDot))
+}
+
+var lenAtomRE = regexp.MustCompile(`^\((?:(0|1) (==|<|<=) len\(.*\)|len\(.*\) (==|<|<=) (0|1))\)$`)
+
+func checkNoVersionsSkipped(c *core.Ctx, list *core.FuncRef) {
+	p := c.Prog
+	key := "plugins/manager.(*PluginManager).ListInstalledPlugins/no versions"
+	info := list.Info()
+	isMetaSlice := func(t types.Type) bool {
+		if t == nil {
+			return false
+		}
+		sl, ok := t.Underlying().(*types.Slice)
+		if !ok {
+			return false
+		}
+		n, ok := sl.Elem().(*types.Named)
+		return ok && n.Obj().Name() == "PluginMetadata"
+	}
+	// the innermost loop holding `out = append(out, …)` for a []PluginMetadata declared outside it
+	var body *ast.BlockStmt
+	var outObj types.Object
+	core.WalkStack(list.Decl.Body, func(n ast.Node, stack []ast.Node) bool {
+		as, ok := n.(*ast.AssignStmt)
+		if !ok || len(as.Lhs) != 1 || len(as.Rhs) != 1 {
+			return true
+		}
+		call, ok := as.Rhs[0].(*ast.CallExpr)
+		if !ok || core.ExprStr(call.Fun) != "append" || !isMetaSlice(info.TypeOf(as.Lhs[0])) {
+			return true
+		}
+		id, ok := as.Lhs[0].(*ast.Ident)
+		if !ok {
+			return true
+		}
+		for i := len(stack) - 1; i >= 0; i-- {
+			var b *ast.BlockStmt
+			switch x := stack[i].(type) {
+			case *ast.RangeStmt:
+				b = x.Body
+			case *ast.ForStmt:
+				b = x.Body
+			}
+			if b != nil {
+				if o := info.ObjectOf(id); o != nil && (o.Pos() < b.Pos() || o.Pos() > b.End()) {
+					body, outObj = b, o
+				}
+				break
+			}
+		}
+		return true
+	})
+	if body == nil {
+		c.Unknown("SKIP", key, list.Decl.Pos(), "no loop appending to the list of installed plugins found")
+		return
+	}
+	bad, paths := "", 0
+	for _, n := range []int64{0, 1} {
+		n := n
+		in := newInterp(p, list)
+		in.MaxPaths = 2000
+		in.ErrorsNil = true
+		in.Hooks.Loop = func(st *absint.State, loop ast.Stmt) *absint.LoopSpec {
+			return &absint.LoopSpec{Cases: []string{"E"}, MaxIter: 1, RefStep: func(ref, cs string) string { return "" }}
+		}
+		in.Hooks.Store = func(st *absint.State, obj types.Object, v absint.Val) {
+			if obj == outObj {
+				st.Emit("LISTED", token.NoPos)
+			}
+		}
+		in.Hooks.Cond = func(st *absint.State, atom string) (bool, bool) {
+			m := lenAtomRE.FindStringSubmatch(atom)
+			if m == nil {
+				return false, false
+			}
+			var l, r int64
+			op := m[2]
+			if m[1] != "" {
+				l, r = int64(m[1][0]-'0'), n
+			} else {
+				op = m[3]
+				l, r = n, int64(m[4][0]-'0')
+			}
+			switch op {
+			case "==":
+				return l == r, true
+			case "<":
+				return l < r, true
+			default:
+				return l <= r, true
+			}
+		}
+		in.Hooks.Call = chainCall(errorfHook)
+		outs, err := in.Run(&ast.FuncType{Params: &ast.FieldList{}, Results: list.Decl.Type.Results}, nil, body, nil, "")
+		if err != nil {
+			c.Unknown("SKIP", key, body.Pos(), err.Error())
+			return
+		}
+		listed := 0
+		for _, o := range outs {
+			paths++
+			for _, e := range o.Events {
+				if e.Name == "LISTED" {
+					listed++
+					break
+				}
+			}
+		}
+		if n == 0 && listed > 0 {
+			bad = "a plugin directory that holds no version (install interrupted before the rename) must not be listed: callers index Versions[0]"
+		}
+		if n == 1 && listed == 0 {
+			bad = "a plugin with an installed version is never listed"
+		}
+	}
+	c.Decide(bad == "", "SKIP", key, body.Pos(), paths, "a plugin directory without versions is not listed", bad)
 }
